@@ -67,6 +67,11 @@ var transTargets = []transTarget{
 	{"executor/executor.go", "Executor", "startWorkers", "head0", "exStartWorkersHead"},
 	{"executor/executor.go", "Executor", "startWorkers", "loop0", "exStartWorkersBody"},
 	{"executor/executor.go", "Executor", "startWorkers", "tail0", "exStartWorkersTail"},
+	// C17 / C02 (asynchronous nodes)
+	{"node/node.go", "Context", "invokeProcessorAsync", "", "ncInvokeAsync"},
+	{"node/node.go", "Context", "invokeProcessorAsync", "closure:errFunc", "ncAsyncErrFunc"},
+	{"node/node.go", "Context", "invokeProcessorAsync", "closure:eventFunc", "ncAsyncEventFunc"},
+	{"node/node.go", "Context", "invokeProcessorAsync", "closure:filterFunc", "ncAsyncFilterFunc"},
 	// C17 / C03
 	{"executor/executor.go", "Executor", "Execute", "tail1", "exExecuteTail"},
 	{"executor/executor.go", "", "waitTimeout", "", "exWaitTimeout"},
@@ -102,6 +107,7 @@ var transTargets = []transTarget{
 	{"node/node.go", "", "InitNodeContextHierarchy", "loop0", "initChildBody"},
 	{"node/node.go", "", "InitNodeContextHierarchy", "tail0", "initTail"},
 	// C12
+	{"node/kafkaproducer/kafkaproducer.go", "KafkaProducer", "startEventsReceiver", "loop0", "kpReportBody"},
 	{"message/kafkamessagesender.go", "KafkaMessageSender", "produceMessage", "", "msProduceMessage"},
 	{"message/kafkamessagesender.go", "KafkaMessageSender", "Send", "", "msSend"},
 	{"message/kafkamessagesender.go", "KafkaMessageSender", "Ack", "", "msAck"},
@@ -503,6 +509,10 @@ func (t *translator) stmt(s ast.Stmt) []string {
 						fn := "lookup " + exprString(ix.X)
 						return fmt.Sprintf("(.call [%s] %s [%s])", bindPairs(lhs, fn), leanStr(fn), t.loose(ix.Index))
 					})
+				}
+				if _, ok := x.Rhs[0].(*ast.FuncLit); ok && len(lhs) == 1 {
+					// name := func(...) {...}: a definition; the literal's body is a target of its own ("closure:name"), calls of it are events
+					return []string{fmt.Sprintf("(.assign %s %s)", leanStr(lhs[0]), vr("func literal "+lhs[0]))}
 				}
 				if len(lhs) == 1 {
 					if lhs[0] == "_" {
